@@ -12,13 +12,30 @@
    "the certificate list is different" is structural: a different x509
    certificate for the SAME key is a different certificate
    (c39_certificate_identity; c39_ex_key_only_equality_would_accept shows the
-   statements fail for a comparison by key alone). *)
+   statements fail for a comparison by key alone).
+
+   Round 4: a certificate also carries the instant its Expires() returns
+   (c_expires, 0 = the zero time.Time) and the clock is an input (now).
+   initConfiguration (NewPeerConnection) rejects a list with an expired
+   certificate (c39_init_rejects_expired; the IsZero arm:
+   c39_zero_expiry_never_expired).  SetConfiguration reads no clock and has no
+   expiry check (c39_set_configuration_no_expiry_check).  Certificate.Equals
+   does not look at the expiry (c39_expiry_not_compared): a certificate object
+   that is the stored one for Equals but reports another expiry
+   (CertificateFromX509 with a copied *x509.Certificate whose NotAfter was
+   overwritten) is accepted as "the same".  SetConfiguration used to store the
+   argument's list at that point, before its remaining checks, so that
+   rejected and accepted calls alike replaced the stored certificates (the
+   statements below were refuted); since the fix it assigns nothing there and
+   the statements hold in full: the stored certificate objects, expiry
+   included, are those NewPeerConnection stored. *)
 From Coq Require Import List Bool String NArith ZArith.
 Import ListNotations.
 From Verif Require Import Common.Base Model.Config Proofs.Config.
 Open Scope string_scope.
 
-(* a rejected call (any error, or a panic) leaves GetConfiguration exactly as it was *)
+(* a rejected call (any error, or a panic) leaves GetConfiguration exactly as
+   it was -- certificates with the expiry they report included *)
 Theorem c39_reject_unchanged : forall closed has_local cur new c' r,
   set_configuration closed has_local cur new = (c', r) -> r <> Ok tt -> c' = cur.
 Proof. exact reject_unchanged. Qed.
@@ -43,16 +60,24 @@ Proof. exact immutable_kept. Qed.
 Print Assumptions c39_immutable.
 
 (* certificate identity is the x509 certificate together with its key, not
-   the key: a call that names, at any position, a certificate other than the
-   stored one is rejected and changes nothing -- in particular (second clause)
-   another x509 certificate issued for the very same key (c_key c = c_key n is
-   allowed), and a stored list in another order or with duplicates *)
+   the key: a call that names, at any position, a certificate Equals can tell
+   from the stored one is rejected and changes nothing -- in particular
+   (second clause) another x509 certificate issued for the very same key
+   (c_key c = c_key n is allowed), and a stored list in another order or with
+   duplicates *)
 Theorem c39_certificate_identity : forall has_local cur new i c n,
   nth_error (certs cur) i = Some c -> nth_error (certs new) i = Some n ->
-  (c <> n -> set_configuration false has_local cur new = (cur, Err E_modification)) /\
+  (cert_id c <> cert_id n -> set_configuration false has_local cur new = (cur, Err E_modification)) /\
   (c_x509 c <> c_x509 n -> set_configuration false has_local cur new = (cur, Err E_modification)).
 Proof. exact certificate_identity. Qed.
 Print Assumptions c39_certificate_identity.
+
+(* the one thing the comparison does not see is the expiry: such a certificate
+   is accepted as the stored one (and, c39_immutable, not stored) *)
+Theorem c39_expiry_not_compared : forall c n,
+  cert_id c = cert_id n -> cert_equals c n = cert_equals c c.
+Proof. exact expiry_not_compared. Qed.
+Print Assumptions c39_expiry_not_compared.
 
 (* and naming the stored certificates again (a re-import of the same key and
    the same x509 certificate is the same triple) is not a change *)
@@ -106,15 +131,51 @@ Print Assumptions c39_history_immutable.
 
 (* the stored policies are never zero, so "non-zero and different" is the only
    way to ask for a change *)
-Theorem c39_init_nonzero : forall c c', init_configuration c = Ok c' ->
+Theorem c39_init_nonzero : forall now c c', init_configuration now c = Ok c' ->
   bundle c' <> 0%Z /\ rtcpmux c' <> 0%Z /\ certs c' <> [] /\ (pool c' = 0 \/ pool c' = 1)%N.
 Proof. exact init_nonzero. Qed.
 Print Assumptions c39_init_nonzero.
 
+(* ---- the clock ---- *)
+(* "!Expires().IsZero() && now.After(Expires())" *)
+Theorem c39_cert_expired_iff : forall now c,
+  cert_expired now c = true <-> (c_expires c <> 0 /\ c_expires c < now)%Z.
+Proof. exact cert_expired_iff. Qed.
+Print Assumptions c39_cert_expired_iff.
+
+Theorem c39_zero_expiry_never_expired : forall now c,
+  c_expires c = 0%Z -> cert_expired now c = false.
+Proof. exact zero_expiry_never_expired. Qed.
+Print Assumptions c39_zero_expiry_never_expired.
+
+(* NewPeerConnection with an expired certificate anywhere in the list fails
+   with InvalidAccess, for every clock reading and whatever else the
+   configuration holds (the check stands before the pool-size and ICE-server
+   checks) *)
+Theorem c39_init_rejects_expired : forall now c,
+  existsb (cert_expired now) (certs c) = true -> init_configuration now c = Err E_access.
+Proof. exact init_rejects_expired. Qed.
+Print Assumptions c39_init_rejects_expired.
+
+(* no certificate NewPeerConnection stores is expired at the instant it read *)
+Theorem c39_init_stored_unexpired : forall now c c',
+  init_configuration now c = Ok c' -> existsb (cert_expired now) (certs c') = false.
+Proof. exact init_stored_unexpired. Qed.
+Print Assumptions c39_init_stored_unexpired.
+
+(* SetConfiguration has no expiry check (no clock among its inputs): naming the
+   stored configuration again succeeds and changes nothing -- also when every
+   stored certificate has expired since (c39_ex_expired_since_accepted) *)
+Theorem c39_set_configuration_no_expiry_check : forall has_local cur,
+  forallb comparable (certs cur) = true -> servers_valid (servers cur) = true ->
+  set_configuration false has_local cur cur = (cur, Ok tt).
+Proof. exact same_configuration_accepted. Qed.
+Print Assumptions c39_set_configuration_no_expiry_check.
+
 (* non-trivial instances *)
 Definition ex_cur : config :=
   {| servers := []; policy := 0; bundle := 2; rtcpmux := 1; identity := "alice";
-     certs := [{| c_ktype := KEcdsa; c_key := 0; c_x509 := 0 |}];
+     certs := [{| c_ktype := KEcdsa; c_key := 0; c_x509 := 0; c_expires := 5000 |}];
      pool := 1; semantics := 0; always_dc := false |}.
 Definition ex_bad_server : server :=
   {| s_id := 2; s_urls := [UTurn]; s_user := true; s_cred := CNil; s_credtype := 0 |}.
@@ -142,31 +203,68 @@ Proof. split; reflexivity. Qed.
 
 (* a renewed certificate: same ECDSA key 0, x509 certificate 4 instead of 0 *)
 Definition ex_renewed : config :=
-  with_certs ex_cur [{| c_ktype := KEcdsa; c_key := 0; c_x509 := 4 |}].
+  with_certs ex_cur [{| c_ktype := KEcdsa; c_key := 0; c_x509 := 4; c_expires := 6000 |}].
 
 Example c39_ex_same_key_other_certificate :
   set_configuration false false ex_cur ex_renewed = (ex_cur, Err E_modification) /\
   set_configuration false true ex_cur ex_renewed = (ex_cur, Err E_modification).
 Proof. split; reflexivity. Qed.
 
-(* Were certificates compared by key alone, the certificate block would accept
-   the renewed certificate and store it: the stored certificate list changes,
-   against c39_immutable / c39_reject_unchanged *)
+(* Were certificates compared by key alone, the certificate block would let
+   the renewed certificate through as "unchanged" (since the fix nothing is
+   stored there, so the stored list stays; the call is accepted against
+   c39_change_rejected / c39_certificate_identity) *)
 Definition key_only (c o : cert) : bool :=
   keytype_eqb (c_ktype c) (c_ktype o) && comparable c && Z.eqb (c_key c) (c_key o).
 
 Example c39_ex_key_only_equality_would_accept :
-  sc_certs_by key_only ex_cur ex_renewed = (ex_renewed, Ok tt) /\
+  sc_certs_by key_only ex_cur ex_renewed = (ex_cur, Ok tt) /\
   certs ex_renewed <> certs ex_cur /\
   sc_certs ex_cur ex_renewed = (ex_cur, Err E_modification).
 Proof. repeat split; try reflexivity. discriminate. Qed.
 
 (* two-certificate list in the other order; the same certificate twice *)
 Example c39_ex_reordered_and_duplicated :
-  let a := {| c_ktype := KEcdsa; c_key := 0; c_x509 := 0 |} in
-  let b := {| c_ktype := KRsa; c_key := 3; c_x509 := 7 |} in
+  let a := {| c_ktype := KEcdsa; c_key := 0; c_x509 := 0; c_expires := 5000 |} in
+  let b := {| c_ktype := KRsa; c_key := 3; c_x509 := 7; c_expires := 0 |} in
   let cur := with_certs ex_cur [a; b] in
   set_configuration false false cur (with_certs cur [b; a]) = (cur, Err E_modification) /\
   set_configuration false false cur (with_certs cur [a; a]) = (cur, Err E_modification) /\
   snd (set_configuration false false cur (with_certs cur [a; b])) = Ok tt.
+Proof. repeat split. Qed.
+
+(* ---- the clock: instances ---- *)
+Open Scope Z_scope.
+(* stored at 4000 (the certificate expires at 5000): accepted; at 5001 the same
+   configuration is refused by NewPeerConnection -- and accepted by
+   SetConfiguration on the connection that holds it *)
+Example c39_ex_expired_since_accepted :
+  let c := with_tail ex_cur 0 false [] in
+  init_configuration 4000 c = Ok c /\
+  init_configuration 5001 c = Err E_access /\
+  existsb (cert_expired 5001) (certs c) = true /\
+  set_configuration false true c c = (c, Ok tt).
+Proof. repeat split. Qed.
+
+(* exactly at the expiry instant the certificate is still good (After is strict);
+   a zero expiry never expires *)
+Example c39_ex_boundary_and_zero :
+  let c e := with_certs ex_cur [{| c_ktype := KEcdsa; c_key := 0; c_x509 := 0; c_expires := e |}] in
+  init_configuration 5000 (c 5000) = Ok (c 5000) /\
+  init_configuration 5001 (c 5000) = Err E_access /\
+  init_configuration 5001 (c 0) = Ok (c 0) /\
+  (* the expired one second in the list, behind a good one; and together with
+     a pool size the constructor would refuse with NotSupported *)
+  init_configuration 5001 (with_certs ex_cur (certs (c 0) ++ certs (c 5000))) = Err E_access.
+Proof. repeat split. Qed.
+
+(* the stored certificate named through an object that reports another expiry
+   (5000 stored, 1000 named): accepted as the same certificate, alone or in a
+   call rejected for its bundle policy -- and the stored one stays *)
+Example c39_ex_other_expiry_not_stored :
+  let n := with_certs ex_cur [{| c_ktype := KEcdsa; c_key := 0; c_x509 := 0; c_expires := 1000 |}] in
+  changes_certs ex_cur n = false /\
+  set_configuration false false ex_cur n = (mutable_tail ex_cur n, Ok tt) /\
+  certs (mutable_tail ex_cur n) = certs ex_cur /\
+  set_configuration false false ex_cur (with_bundle n 3) = (ex_cur, Err E_modification).
 Proof. repeat split. Qed.
